@@ -138,6 +138,12 @@ where
     Codec: crate::codec::Codec,
     E: RemoteSend + Clone,
 {
+    #[cfg(remoc_verif)]
+    let event = match verif_hooks::capture_event(event) {
+        Some(event) => event,
+        None => return,
+    };
+
     match tx.send(event) {
         Ok(_) => (),
         Err(err) if err.is_disconnected() => (),
@@ -212,5 +218,34 @@ impl ChangeNotifier {
     /// will not return immediately.
     pub fn update(&mut self) {
         self.0.borrow_and_update();
+    }
+}
+
+/// Verification hooks (add-only, compiled only with `--cfg remoc_verif`).
+#[cfg(remoc_verif)]
+#[allow(missing_docs, dead_code, clippy::all)]
+pub mod verif_hooks {
+    use std::sync::atomic::{AtomicBool, Ordering};
+
+    static CAPTURE: AtomicBool = AtomicBool::new(false);
+
+    /// While capturing, events handed to `send_event` are moved into a harness-visible log
+    /// (in emission order) instead of being broadcast.
+    pub fn set_capture(on: bool) {
+        CAPTURE.store(on, Ordering::Relaxed);
+    }
+
+    pub fn capture_event<E: 'static>(event: E) -> Option<E> {
+        if CAPTURE.load(Ordering::Relaxed) {
+            tokio::model::side_log_push(event);
+            None
+        } else {
+            Some(event)
+        }
+    }
+
+    /// Takes all captured events, in emission order.
+    pub fn take_events<E: 'static>() -> Vec<E> {
+        tokio::model::side_log_take()
     }
 }
